@@ -147,6 +147,14 @@ def parseColorDyeTable (tableDimensionLogs : UInt8) : P (Option ColorDyeTable) :
     pure (some (.dawntrail rows))
   else pure (some .opaque)
 
+/-- `#[br(if(has_table))] #[br(parse_with = parse_color_table)] #[br(args(table_dimension_logs))]` -/
+def optColorTable (hasTable : Bool) (tableDimensionLogs : UInt8) : P (Option ColorTable) :=
+  if hasTable then parseColorTable tableDimensionLogs else pure none
+
+/-- `#[br(if(has_dye_table))] #[br(parse_with = parse_color_dye_table)]` -/
+def optColorDyeTable (hasDyeTable : Bool) (tableDimensionLogs : UInt8) : P (Option ColorDyeTable) :=
+  if hasDyeTable then parseColorDyeTable tableDimensionLogs else pure none
+
 def shaderKey : P ShaderKey := do
   let category ← u32
   let value ← u32
@@ -215,8 +223,8 @@ def materialData : P MaterialData := do
   let hasTable := (tableFlags &&& 0x4) != 0
   let hasDyeTable := (tableFlags &&& 0x8) != 0
   let tableDimensionLogs := (tableFlags >>> 4).toUInt8
-  let colorTable ← if hasTable then parseColorTable tableDimensionLogs else pure none
-  let colorDyeTable ← if hasDyeTable then parseColorDyeTable tableDimensionLogs else pure none
+  let colorTable ← optColorTable hasTable tableDimensionLogs
+  let colorDyeTable ← optColorDyeTable hasDyeTable tableDimensionLogs
   let header ← materialHeader
   let shaderKeys ← count shaderKey header.shaderKeyCount.toNat
   let constants ← count constantStruct header.constantCount.toNat
